@@ -640,6 +640,15 @@ fn http_leg(rep: &mut Report) {
                 jobs.push((li, s.clone(), vec![], budget));
             }
         }
+        // failures spread over several runs, each within the budget of its own request (the budget is per request)
+        if runs.len() >= 2 {
+            for budget in 1..=2u32 {
+                jobs.push((li, vec![HF::CutAfter(1), HF::None, HF::CutAfter(1), HF::None, HF::CutAfter(1)], vec![], budget));
+                jobs.push((li, vec![HF::Refuse, HF::None, HF::Refuse, HF::None, HF::Refuse], vec![], budget));
+                jobs.push((li, vec![HF::CutAfter(0), HF::None, HF::Refuse, HF::None], vec![], budget));
+            }
+            jobs.push((li, vec![HF::CutAfter(1), HF::CutAfter(1), HF::None, HF::CutAfter(1), HF::CutAfter(1), HF::None], vec![], 2));
+        }
         // correct answers in chunked transfer encoding (no Content-Length), also after a cut transfer
         jobs.push((li, vec![HF::Chunked; 4], vec![], 0));
         jobs.push((li, vec![HF::Chunked; 4], vec![1, 2, 4], 0));
